@@ -172,12 +172,15 @@ PROPS = {
         level_note='The handler-program space is finite and stated in coverage.bounded.bound.',
     ),
     'C08': dict(
-        level='other', contracts=[], frames=[],
+        level='other', contracts=['C10', 'C20'], frames=[],
         technique='bounded run-time contract check with forced thread interleavings (token hand-over at every executed statement of the '
-                  'package via sys.settrace; all schedules up to a preemption bound) against the served-alone response',
-        explanation='BOUNDED: forced interleavings of 2-3 request threads; see coverage.bounded.',
-        level_text='Bounded exploration of schedules on the real code (never counted as proved); the confinement proof is engine B work.',
-        level_note='Preemption bound and request kinds are stated in coverage.bounded.bound.',
+                  'package via sys.settrace; all schedules up to a preemption bound) against the served-alone response; proved: the ts_props '
+                  'accessors read and write only the thread-local store of their own instance; the process-wide template cache is published atomically',
+        explanation='BOUNDED forced interleavings of 2-3 request threads; proved ownership of the thread-local accessors and atomic fill of '
+                    'the only process-wide lazily initialised state (error page template cache).',
+        level_text='Bounded exploration of schedules on the real code (never counted as proved) plus proved accessor ownership. A full '
+                   'thread-confinement proof over every write site reachable from Ombott.__call__ was designed (DESIGN 3.2) but is not built.',
+        level_note='Preemption bound and request kinds are stated in coverage.bounded.bound; threading.local semantics and CPython atomicity of single container operations assumed.',
     ),
     'C09': dict(
         level='other', contracts=['C14', 'C03'], frames=[],
@@ -188,12 +191,20 @@ PROPS = {
         level_note='History length and request kinds are stated in coverage.bounded.bound.',
     ),
     'C10': dict(
-        level='other', contracts=[], frames=[],
-        technique='bounded run-time contract check of nested / alternating / interleaved applications (every foreign operation must '
-                  'leave the view of every application in progress unchanged)',
-        explanation='BOUNDED arrangements of 2-3 applications; see coverage.bounded.',
-        level_text='Bounded contract check (never counted as proved); ownership VC on ts_props is pending.',
-        level_note='Arrangements are stated in coverage.bounded.bound.',
+        level='proof', contracts=['C10', 'C03'], frames=[],
+        technique='deductive: heap-model VCs from the real AST of the ts_props accessors (fget/fset/fdel) and of the wrapped __init__ '
+                  '(ownership: an accessor touches only the store of the instance it is called on; init writes nothing but its own instance '
+                  'and its own store; no nonlocal/global write), and of HTTPResponse.apply (no aliasing of long-lived objects); bounded '
+                  'check of nested / alternating / interleaved applications as replay harness',
+        explanation='fget(s) == H[H[s,store],k] with H unchanged; fset(s,v) writes exactly that cell, so another instance with another store '
+                    'is unaffected (relational obligation); init_wrapper takes or creates the store of ITS instance, resets exactly the listed '
+                    'properties there and writes nothing else before calling the class __init__; apply copies headers by value.',
+        level_text='Proof of instance ownership of the thread-local accessors and of the wrapped initialiser for all instances, stores and '
+                   'property names; that request/response objects of different applications do not share other state (e.g. a class-level '
+                   'HeaderDict) is decided by the bounded arrangements only.',
+        level_note='Heap model H[object, name]; threading.local() allocates a fresh object; store_name is not a listed property. '
+                   'Sharing through objects outside ts_props (class attributes, module globals): bounded.',
+        trusted_base=['heap model of getattr/setattr/delattr', 'threading.local semantics'],
     ),
     'C11': dict(
         level='other', contracts=[], frames=[],
